@@ -7,7 +7,9 @@
     shows that the pinned defect (flag on) breaks mutual exclusion. *)
 From EG.lib Require Import Base.
 From EG.model Require Import Mutex.
-From EG.proofs Require Import MutexProofs MutexProofsApi MutexProofsThm.
+From EG.model Require Import MutexCheck.
+From EG.proofs Require Import MutexProofs MutexProofsApi MutexProofsThm MutexCheckSound.
+From Coq Require Import Permutation.
 Open Scope Z_scope.
 
 (** at most one thread anywhere is between a successful Lock and its Unlock *)
@@ -145,3 +147,83 @@ Example C18_nonvacuous_fault :
   | None => False
   end.
 Proof. exact nonvacuous_fault. Qed.
+
+(** ** soundness of the trace-level checkers (the `prop` bit evaluated on the implementation's own histories)
+
+    [holding pre a]: attempt a's acquisition is in the prefix [pre] of the event log with no release of a
+    after it in [pre].  [replay_ops]: sequential replay; [answer_explained]: the answer is the one of the
+    sequential specification, and a failed mutation is the identity there. *)
+
+(** every event log (any length) accepted by [mx_prop] satisfies: (a) at most one holder after every prefix,
+    releases by the holder, acquisitions only of a free lock; (b) only short-time-out attempts fail, a failing
+    attempt never holds, every ample-time-out attempt acquired and every acquisition was released, no key and
+    no holder at the snapshots and at the end; distinct member identities *)
+Theorem C18_checker_sound_mutex : forall c,
+  mx_prop c = true ->
+  let ev := x_ev c in
+  (forall pre post a b, ev = pre ++ post -> holding pre a -> holding pre b -> a = b) /\
+  (forall pre post a, ev = pre ++ (1, a) :: post -> holding pre a) /\
+  (forall pre post a b, ev = pre ++ (0, a) :: post -> ~ holding pre b) /\
+  NoDup (map snd (filter acqfail ev)) /\
+  (x_maxov c <= 1) /\
+  (forall a, In (2, a) ev ->
+     is_short c a = true /\ ~ In (0, a) ev /\ forall pre post, ev = pre ++ post -> ~ holding pre a) /\
+  (forall a, (a < List.length (x_thr c))%nat -> is_short c a = false -> In (0, a) ev) /\
+  (forall l1 l2 a, ev = l1 ++ (0, a) :: l2 -> In (1, a) l2) /\
+  (forall pre n post, ev = pre ++ (3, n) :: post -> n = O /\ forall a, ~ holding pre a) /\
+  (forall a, ~ holding ev a) /\
+  (forall l, In l (x_ids c) -> NoDup l).
+Proof. exact mx_prop_sound. Qed.
+Print Assumptions C18_checker_sound_mutex.
+
+(** every request history (any length) accepted by [api_prop] satisfies: the successes ordered by returned
+    version carry v0+1, v0+2, ... (strictly increasing by one, no gap, no duplicate); there is a sequential
+    order - those successes in version order (plus, in fault-injection cases only, the mutations cut short
+    after their object write) - in which every success is legal, returns the specified code and the next
+    version; the final listing and version are the replay of that sequence alone, the final version is
+    v0 + number of successes; every failed request / read is answered as the specification answers at some
+    point of the replay, where a failed mutation changes neither store nor version *)
+Theorem C18_checker_sound_api : forall c,
+  api_prop c = true ->
+  let ops := index_from 0 (a_ops c) in
+  let st0 := (a_init c, a_v0 c) in
+  let succ := api_succ c in
+  Permutation succ (filter succP ops) /\
+  map (fun x => o_ver (snd x)) succ = zseq (a_v0 c + 1) (List.length succ) /\
+  NoDup (map (fun x => o_ver (snd x)) succ) /\
+  exists seq,
+    filter succP seq = succ /\
+    (forall x, In x seq -> In x ops /\ (is_succ (snd x) = true \/ is_part (snd x) = true)) /\
+    ((forall x, In x ops -> is_part (snd x) = false) -> seq = succ) /\
+    (forall l1 x l2, seq = l1 ++ x :: l2 ->
+       let st := replay_ops st0 l1 in
+       if is_part (snd x)
+       then precheck (fst st) (o_req (snd x)) = None /\
+            replay_ops st0 (l1 ++ [x]) = (apply_objs (o_req (snd x)) (fst st), snd st)
+       else spec_result st (o_req (snd x)) = ROk (o_status (snd x)) (o_ver (snd x)) /\
+            o_ver (snd x) = snd st + 1 /\
+            replay_ops st0 (l1 ++ [x]) = (apply_objs (o_req (snd x)) (fst st), snd st + 1)) /\
+    (forall l1 x l2 y, seq = l1 ++ x :: l2 -> In y l2 -> o_call (snd x) <= o_ret (snd y)) /\
+    (forall n, alookup n (fst (replay_ops st0 seq)) = alookup n (a_final c)) /\
+    snd (replay_ops st0 seq) = a_finalver c /\
+    a_finalver c = a_v0 c + Z.of_nat (List.length succ) /\
+    ((forall x, In x ops -> is_part (snd x) = false) ->
+       replay_ops st0 seq = fold_left spec_apply (map (fun x => o_req (snd x)) succ) st0) /\
+    (forall x, In x ops -> in_seq (snd x) = false -> no_thread (snd x) = false -> o_hit (snd x) = false ->
+       exists l1 l2, seq = l1 ++ l2 /\ answer_explained (replay_ops st0 l1) (snd x)) /\
+    (forall x, In x ops -> in_seq (snd x) = false -> o_hit (snd x) = true -> 500 <= o_status (snd x)) /\
+    (forall x, In x ops -> in_seq (snd x) = false -> o_bad (snd x) = true -> o_hit (snd x) = false ->
+       o_status (snd x) = 400).
+Proof. exact api_prop_sound. Qed.
+Print Assumptions C18_checker_sound_api.
+
+(** non-vacuity: concrete non-trivial histories accepted by the checkers (a lease re-grant under the holder,
+    a timed-out Lock, three members; two clients with 409 / 400 / concurrent read / delete on another member) *)
+Example C18_checker_nonvacuous_mutex :
+  mx_prop ex_mx_case = true /\ holding [(0, 0%nat); (5, 0%nat); (2, 1%nat)] 0%nat.
+Proof. exact mx_prop_nonvacuous. Qed.
+
+Example C18_checker_nonvacuous_api :
+  api_prop ex_api_case = true /\
+  map (fun x => (fst x, o_ver (snd x))) (api_succ ex_api_case) = [(0%nat, 8); (3%nat, 9); (5%nat, 10)].
+Proof. exact api_prop_nonvacuous. Qed.
